@@ -3,6 +3,9 @@
 import json, os
 HERE = os.path.dirname(os.path.dirname(os.path.abspath(__file__)))
 CHECKS = {
+ "C01": ("model_checking", "bounded-exhaustive enumeration of node programs x payloads x contexts; every trace of a reference dual-channel interpreter is replayed against the real Pipeline (plus prefix-differential runs)",
+         "All node programs to length 2-3 over a 38-symbol component alphabet (every kind the property lists), reduced-alphabet programs of length 3-4 and all programs within 1-2 edits of four length-8 spines are run on every initial data kind and every subset of the context keys they can read; result data, context, failing node, exception class/identity, processor execution log and sink files must equal the reference interpreter's. Interactions like a probe key consumed later as a parameter or rename-after-delete are forced to occur by the shared key alphabet.",
+         "reference interpreter mc/ref/interp.py (written from the docs); values outside the alphabet are not explored; programs longer than 4 only near the spines", "3 C01"),
  "C12": ("exploration", "bounded-exhaustive enumeration of expression trees grouped by implementation signature; exact polynomial normal form + complete integer grid as oracle",
          "Every expression tree of the stated alphabets up to 2-5 leaves, every permutation x bracketing of +/* chains over a 16-term operand pool, and every single-point mutant are enumerated; same signature must mean same exact value, AC-rearrangements must share a signature. Exhaustive to the bound, so a normaliser bug that needs a particular operand shape (unary minus, nested subtraction) is found if it shows within the bound.",
          "CPython ast; exact Fraction arithmetic; values outside the grid {-2..3} and expressions beyond the leaf bound are not explored", "3 C12"),
